@@ -373,6 +373,15 @@ theorem C16_wire_indices_consecutive (t : List Desc) (o : SubsetOut) (tree : Lis
 theorem C16_mkMsg_shape (t : List Desc) (outs : List SubsetOut) (m : QMsg) (h : mkMsg t false outs = .ok m) :
     Spec.shapeOK m = true := mkMsg_shape t outs m h
 
+/-- compressed data: the message handed to `query` satisfies the shape hypothesis of `C16_query_eq_eval_compressed`
+    when every subset carries the delayed replication counts of subset 0 at the factors of the shared tree
+    (`Spec.sameCountsList`, decidable: what "the subsets of compressed data share one structure" means for the
+    renderer; a property of the decoder's output, evaluated by the driver) -/
+theorem C16_mkMsg_shape_compressed (t : List Desc) (outs : List SubsetOut) (m : QMsg) (h : mkMsg t true outs = .ok m)
+    (o0 : SubsetOut) (t0 : List Node) (h0 : outs[0]? = some o0) (hw : wire t o0 = .ok t0)
+    (hcounts : ∀ o ∈ outs, Spec.sameCountsList o0 o t0 = true) : Spec.shapeOK m = true :=
+  mkMsg_shape_compressed t outs m h o0 t0 h0 hw hcounts
+
 /-- the message a decoder hands over for compressed data: every subset shares the tree wired from subset 0
     (the hypothesis `ht` of the theorems on compressed data) -/
 theorem C16_compressed_trees_shared (t : List Desc) (outs : List SubsetOut) (m : QMsg)
@@ -887,6 +896,10 @@ example : (match cmsg with
         [(0, [.list [.list [.val (.int 5)], .list [.val (.int 6)]]]), (1, [.list [.list [.val (.int 7)], .list [.val (.int 8)]]])]
     | .error _ => false) = true := by decide +kernel
 example : (cmsg).toOption.isSome = true := by decide +kernel     -- hypothesis of `C16_compressed_trees_shared`
+/-- hypotheses of `C16_mkMsg_shape_compressed`: both subsets carry the replication count 2 of subset 0 -/
+example : (match wire T O1 with
+    | .ok t0 => Spec.sameCountsList O1 O1 t0 && Spec.sameCountsList O1 O1b t0 && !Spec.sameCountsList O1 O2 t0
+    | .error _ => false) = true := by decide +kernel
 /-- `C16_query_eq_eval_compressed_selected`: without a selector the first selected subset is subset 0 -/
 example : subsetIndices none 2 = .ok (0 :: [1]) := by decide
 /-- the empty selection (fix F16c): `@[7:]` on two subsets with a path that fails on the tree (`/001001/012001`, a
